@@ -575,6 +575,33 @@ example :
 example : (fmt cfgC.render (.list [.str "x", .list [.dict (.obj []), .other "5"]])).map List.length = some 3 := by
   decide
 
+/-- No response depends on what was served before: after ANY traffic (requests, notifications,
+failures, equal ids — in whatever order other dispatches were interleaved), a message gets exactly
+the response it gets from the freshly built server.  Dispatch keeps no per-request state; the
+only thing handling leaves behind is the log of application handlers that ran. -/
+theorem c08_response_independent_of_history (cfg : Cfg) (s : Srv) (pre : List Req) (r : Req) :
+    (serve cfg (serveAll cfg s pre).2 r).1 = (serve cfg s r).1 := by
+  obtain ⟨a, b, c, d⟩ := serveAll_frame cfg s pre
+  exact serve_fst_congr cfg _ _ r a b c d
+
+/-- Two servers alive in one process are independent: however their traffic is interleaved, each
+one's responses and final state are those of that server serving its own messages alone. -/
+theorem c08_servers_independent (cfg : Cfg) (p : Srv × Srv) (xs : List (Bool × Req)) :
+    ((servePairAll cfg p xs).1.filter (·.1)).map (·.2)
+        = (serveAll cfg p.1 ((xs.filter (·.1)).map (·.2))).1
+    ∧ ((servePairAll cfg p xs).1.filter (fun y => !y.1)).map (·.2)
+        = (serveAll cfg p.2 ((xs.filter (fun y => !y.1)).map (·.2))).1
+    ∧ (servePairAll cfg p xs).2.1 = (serveAll cfg p.1 ((xs.filter (·.1)).map (·.2))).2
+    ∧ (servePairAll cfg p xs).2.2 = (serveAll cfg p.2 ((xs.filter (fun y => !y.1)).map (·.2))).2 :=
+  servePairAll_proj cfg p xs
+
+/-- equal ids, one after the other and on two servers: same answers as alone -/
+example :
+    (serve cfgC (serveAll cfgC srvEx2 [{ id := some (.int 1), method := "tools/call", name := .str "b" },
+        { id := some (.int 1), method := "nosuch" }]).2 { id := some (.int 1), method := "ping" }).1
+      = (serve cfgC srvEx2 { id := some (.int 1), method := "ping" }).1 :=
+  c08_response_independent_of_history cfgC srvEx2 _ _
+
 end content
 
 end Verif.Props.C08
